@@ -120,6 +120,10 @@ def family_names(f, shape='chain', names=('a', 'b'), anames=None, docs=1):
             root.content = [el('n1', [el('n2')], attrs=2, text=True)]
         elif shape == 'three_branches':
             root.content = [el('n1', [el('n4')]), el('n2', [el('n5'), el('n3', [el('n6')])])]
+        elif shape == 'single':
+            root.content = [el('n1')]
+        elif shape == 'single_attr':
+            root.content = [Node('e', present=True, empty=True, attrs=f.attrs(t + 'e', 1, list(anames or names)), label=t + 'e')]
         elif shape == 'pair':
             root.content = [el('n1', attrs=1), el('n2', text=True)]
         out.append([root])
